@@ -70,21 +70,25 @@ def opAnswer (name : String) (a : D128) (b : Option D128) (k : Option Int) : Opt
     let r := FNum.modulo (.fin a) (.fin b)
     some (showR r, showR r, "na")
   | "even", none, _ =>
+    -- raw: `dec_is_zero(dec_remainder(a, 2))` (dec.rs); F: `FeelNumber::even`
+    let raw := (D128.remainder a ⟨false, 2, 0⟩).isZero
     let r := FNum.even (.fin a)
-    -- specification: the value is an even integer
+    -- specification (applies to the FeelNumber level): the value is an even integer
     let spec := match D128.toInt? a with
       | some i => i % 2 == 0
       | none => false
-    some (boolStr r, boolStr r, boolStr (r == spec))
+    some (boolStr raw, boolStr r, boolStr (r == spec))
   | "odd", none, _ =>
+    let raw := D128.isInteger a && !(D128.remainder a ⟨false, 2, 0⟩).isZero
     let r := FNum.odd (.fin a)
     let spec := match D128.toInt? a with
       | some i => i % 2 == 1
       | none => false
-    some (boolStr r, boolStr r, boolStr (r == spec))
+    some (boolStr raw, boolStr r, boolStr (r == spec))
   | "isint", none, _ =>
-    let r := D128.isInteger a
-    some (boolStr r, boolStr r, boolStr (r == D128.isIntegral a))
+    -- raw: `dec_is_integer` = decQuadIsInteger (exponent 0); F: `FeelNumber::is_integer`
+    let r := FNum.isInteger (.fin a)
+    some (boolStr (D128.isInteger a), boolStr r, boolStr (r == D128.isIntegral a))
   | _, _, _ => none
 
 def judge (name : String) (a : D128) (b : Option D128) (k : Option Int) (r : D128R) : Option Bool :=
